@@ -187,6 +187,63 @@ def order_cases(graphs):
 GATES = ["none", "yield", "sleep", "barrier", "holdcoll"]
 
 
+def sched_cfg(k, eager):
+    ts = ", ".join('"t%d"' % i for i in range(1, k + 1))
+    return ('CONSTANTS\n  Tasks = {%s}\n  Eager = %s\n  MaxSubmits = 1\n  MaxPerSubmit = %d\n  MaxPanics = 0\n  AllowWaitAll = FALSE\n'
+            '  Bug = "none"\nINIT SInit\nNEXT SNext\nCONSTRAINT AllAtOnce\nINVARIANT Emit\nCHECK_DEADLOCK FALSE\n' % (
+                ts, "TRUE" if eager else "FALSE", k))
+
+
+def gen_schedules(tier):
+    """Every order of critical sections (executor t / collector) that a behaviour of TaskManager.tla has, for one submit of k tasks."""
+    jobs = [(k, eager) for k in (2, 3, 4) for eager in (False, True)]
+
+    def one(job):
+        k, eager = job
+        name = "sched_%d_%s.cfg" % (k, "e" if eager else "b")
+        return vlib.tlc("TMSched", name, files={name: sched_cfg(k, eager)}, workers=2, timeout=900, heap="4g")
+    with concurrent.futures.ThreadPoolExecutor(max_workers=JVMS) as ex:
+        runs = list(ex.map(one, jobs))
+    out, stats = [], []
+    for (k, eager), r in zip(jobs, runs):
+        vlib.tlc_must_pass(r, "schedule generation k=%d eager=%s" % (k, eager))
+        seen = set()
+        for t in r.tagged("CASE"):
+            if len(t) != 1 or t[0] in seen:
+                continue
+            seen.add(t[0])
+            rec = json.loads(t[0])
+            if not rec["cs"]:
+                continue
+            # task numbering of the harness: the synchronous task is the first task of the submit
+            names = sorted({e[1] for e in rec["cs"] if e[0] == "E"})
+            if rec["sync"] != "none":
+                names = [rec["sync"]] + [n for n in names if n != rec["sync"]]
+            num = {n: i + 1 for i, n in enumerate(names)}
+            sched = ["C" if e[0] == "C" else "E%d" % num[e[1]] for e in rec["cs"]]
+            if not any(x["k"] == k and x["eager"] == eager and x["sched"] == sched for x in out):
+                out.append({"k": k, "eager": eager, "sched": sched})
+        n = sum(1 for x in out if x["k"] == k and x["eager"] == eager)
+        stats.append({"k": k, "eager": eager, "schedules": n, "tlc_distinct": r.distinct})
+        log("  schedules k=%d %s: %d orders of critical sections (TLC %d distinct states, %.0fs)" % (k, "eager" if eager else "batch", n, r.distinct, r.wall_s))
+    return out, stats
+
+
+def sched_cases(tier, scheds, rnd):
+    small = [x for x in scheds if x["k"] <= 3]
+    big = [x for x in scheds if x["k"] == 4]
+    if tier == "quick":
+        rnd.shuffle(big)
+        big = big[:600]
+    cases = []
+    for i, x in enumerate(small + big):
+        mode = "wf" if x["eager"] else ("dag", "pregel")[i % 2]
+        stages = 2 if (not x["eager"] and i % 3 == 0) else 1           # batch: the same order is replayed on the second step too
+        cases.append(dict(lane_graph(mode, x["k"], stages), id="s%d" % i, grp="", order=[], hook=True, gate="sched", jit=0,
+                          sched=x["sched"], seed=vlib.SEED * 100003 + i))
+    return cases
+
+
 def lane_graph(mode, lanes, stages, fail=None):
     nodes, edges = [], []
     for i in range(lanes):
@@ -473,13 +530,19 @@ def c03(tier, repo=None):
         graphs = small + big[:160]
         exhaustive = False
     ocases = order_cases(graphs)
-    hcases = hook_cases(tier, graphs, rnd)
+    scheds, sched_stats = gen_schedules(tier)
+    hcases = hook_cases(tier, graphs, rnd) + sched_cases(tier, scheds, rnd)
     by_id = {c["id"]: c for c in ocases + hcases}
     hook_lines, conf_lines, rstats = replay(hcases + ocases, repo=repo, timeout=1500)
     log("  replayed %d hook runs (%d events) and %d forced-order runs (%d observations) on the real engine, %.0fs, hangs %d+%d" % (
         rstats["hook_ran"], len(hook_lines), rstats["order_ran"], len(conf_lines), rstats["wall_s"], rstats["hook_hangs"], rstats["order_hangs"]))
     hres = validate_hook(hook_lines)
     cres = validate_conf(conf_lines)
+    sched_runs = sum(1 for ln in hook_lines if ln.startswith('{"ev":"case"') and '"gate":"sched"' in ln)
+    sched_drift = sum(1 for ln in hook_lines if ln.startswith('{"ev":"sched.timeout"'))
+    if sched_drift:
+        log("DRIFT: %d of %d TLC-generated orders of critical sections could not be followed by the real task manager "
+            "(model/code divergence or scheduling delay; the runs themselves are judged by TMTrace)" % (sched_drift, sched_runs))
     idx = index_conf(conf_lines)
     notes = [b for b in cres["bad"] if str(b[2]).startswith("NOTE:")]
     if notes:
@@ -562,7 +625,8 @@ def c03(tier, repo=None):
            "evaluations": rstats["hook_ran"] + rstats["order_ran"],
            "distinct_nontrivial": len(hook_sigs) + distinct_orders,
            "rule": "hook runs: lanes(1-4) x stages(1-2) x {dag, pregel, wf} x gate policy x jitter, failing/panicking nodes, plus TMGen graphs, "
-                   "scheduling seeded by VERIF_SEED; non-trivial = the overflow list was non-empty while a task was handed over (the 1-slot "
+                   "scheduling seeded by VERIF_SEED; plus schedule replays: every order of critical sections of the TaskManager.tla behaviours "
+                   "(one submit of 2-4 tasks, batch and eager; quick: all for k<=3 and a seeded slice for k=4) forced through the two gates; non-trivial = the overflow list was non-empty while a task was handed over (the 1-slot "
                    "channel was full), distinct = distinct (mode, push order, tm event sequence). "
                    "order runs: every graph TLC enumerates from spec/TMGen.tla (quick: all 3-node graphs + a seeded slice of the 4-node ones) x "
                    "EVERY completion order the mode allows + batch probes; distinct non-trivial = distinct completion sequences actually "
@@ -571,6 +635,7 @@ def c03(tier, repo=None):
                       [{"order_case": c, "observations": [json.loads(x) for x in o[1:10]]} for c, o in some_c],
            "exhaustive": exhaustive and tier == "thorough",
            "model_runs": model_runs, "conf_model_runs": conf_model_runs, "families": gen_stats,
+           "schedule_families": sched_stats, "schedule_replays": sched_runs, "schedule_replays_not_followed": sched_drift,
            "hook_runs": rstats["hook_ran"], "hook_events": len(hook_lines), "hook_runs_accepted": hres["accepted"],
            "hook_nontrivial_distinct": len(hook_sigs), "max_overflow_list_len": max_l, "tmtrace_states": hres["states"],
            "order_runs": rstats["order_ran"], "order_observations": len(conf_lines), "graphs": len(orders_seen),
